@@ -17,20 +17,32 @@ def seqs(ops, rest):
     for op in reversed(ops):
         if isinstance(op, tuple) and op[0] == "guarded":
             s = ["try", ["do", ["awaitfut", op[1]], ["end"]], "exception", ["do", ["log", op[2]], ["end"]], ["end"], s]
+        elif isinstance(op, tuple) and op[0] == "locked":
+            s = ["do", ["acquire", 0], ["try", ["do", ["awaitfut", op[1]], ["end"]], "never", ["end"],
+                                        ["do", ["release", 0], ["end"]], s]]
         else:
             s = ["do", op, s]
     return s
 
 
-def child(rng, c, cancel_shapes=False):
+def child(rng, c, cancel_shapes=False, prims=False):
     """log S; try: prefix; await...; log A; ...; return/raise  except CancelledError: log SEEN; [await; log CLEAN];
        (re-raise | suppress)  finally: log FIN"""
     ops = []
     n = rng.randint(0, 4)
     for j in range(n):
         r = rng.random()
-        if r < 0.25:
+        if r < 0.2:
             ops.append(["sleep0"])
+        elif r < 0.27 and prims:
+            # asyncio's own primitives inside an eager coroutine (C01's quantifier allows them)
+            k = rng.random()
+            if k < 0.4:
+                ops.append(["eventwait", 0])
+            elif k < 0.6:
+                ops.append(["sleep", [1, 1]])
+            else:
+                ops.append(("locked", rng.randrange(2)))          # async with asyncio.Lock: await fut
         elif r < 0.6:
             ops.append(["awaitfut", rng.randrange(2)])
         elif r < 0.8:
@@ -59,11 +71,11 @@ def child(rng, c, cancel_shapes=False):
     return ["do", ["log", S + c], ["try", body, "cancel", handler, ["do", ["log", FIN + c], ["end"]], ["end"]]], suppress
 
 
-def parent(rng, first_child, nchildren, how, cancel=False, table=None):
+def parent(rng, first_child, nchildren, how, cancel=False, table=None, prims=False):
     s_children = []
     for i in range(nchildren):
         c = first_child + i
-        sc, suppress = child(rng, c)
+        sc, suppress = child(rng, c, prims=prims)
         if table is not None:
             table[str(c)] = {"suppress": suppress}
         s_children.append(sc)
@@ -99,9 +111,11 @@ def gen_case(rng, cancel=False):
         acts.append(["do", ["setresult", 1, 5]])     # a future that is already finished
     nparents = rng.randint(1, 2)
     c = 0
+    # a third of the (cancellation-free) programs let the eager coroutines use asyncio.Event / asyncio.Lock / sleep(d)
+    prims = (not cancel) and rng.random() < 0.35
     for p in range(nparents):
         n = rng.randint(1, 3)
-        acts.append(["spawn", [rng.choice(["plain", "py"])], parent(rng, c, n, ["eager"], cancel, table)])
+        acts.append(["spawn", [rng.choice(["plain", "py"])], parent(rng, c, n, ["eager"], cancel, table, prims)])
         c += n
     for _ in range(rng.randint(3, 16)):
         r = rng.random()
@@ -117,6 +131,11 @@ def gen_case(rng, cancel=False):
             # only the eager awaitables (future ids after the shared futures and the parents' own tasks)
             acts.append(["do", ["cancelaw", 2 + nparents + rng.randrange(3)]])
     acts += [["do", ["setresult", 0, 3]], ["do", ["setresult", 1, 4]]] + [["step"]] * 30
+    if prims:
+        # virtual time: let the sleeps expire, set the event, drain
+        acts += [["do", ["eventset", 0]], ["advance", [2, 1]], ["begin"]] + [["step"]] * 30
+        return {"loop": loop, "locks": ["plain"], "conds": [], "events": 1, "acts": acts, "children": table,
+                "nchildren": c, "nparents": nparents}
     return {"loop": loop, "locks": [], "conds": [], "events": 0, "acts": acts, "children": table, "nchildren": c,
             "nparents": nparents}
 
@@ -261,6 +280,7 @@ PROP = Prop(
     signature=signature,
     rule="random programs: 1..2 parent tasks each starting 1..3 coroutines with eager() and joining them later; "
          "bodies over {await pending/finished shared future, sleep(0), log, try/except CancelledError/finally, return, "
+         "in a third of the programs also asyncio.Event.wait, sleep(d) and an asyncio.Lock section around an await, "
          "raise Exception/BaseException subclasses}; several eager coroutines awaiting the same future; the environment "
          "resolves/fails the futures in all orders; three loops; reference = the same program with plain tasks; "
          "non-trivial: >=4 actions of >=3 kinds",
